@@ -238,6 +238,15 @@ def cases():
             "class PB { public constructor(int a) -> PB { return this; } }\nclass PD extends PB { public constructor() -> PD { super(1); return this; } }"),
            ("protected-constructor-from-outside", "class PP { protected constructor() -> PP = default; }\nfunction mk() -> void { PP p = new PP(); }",
             "class PP { protected constructor() -> PP = default; }\nclass PQ extends PP { public constructor() -> PQ { super(); return this; } }\nfunction mk() -> void { PQ p = new PQ(); }"),
+           ("unrelated-class-with-colliding-name-concatenation",
+            "class Box { public constructor() -> Box = default; }\nclass ItemList extends Box { public constructor() -> ItemList = default; }\nclass Item { public constructor() -> Item = default; }\nclass ListBox { public constructor() -> ListBox = default; }\nfunction cc() -> void { Box b = new ItemList(); ListBox lb = new Item(); }",
+            "class Box { public constructor() -> Box = default; }\nclass ItemList extends Box { public constructor() -> ItemList = default; }\nclass Item { public constructor() -> Item = default; }\nclass ListBox { public constructor() -> ListBox = default; }\nfunction cc() -> void { Box b = new ItemList(); ListBox lb = new ListBox(); }"),
+           ("unrelated-class-with-colliding-name-concatenation-2",
+            "class AB { public constructor() -> AB = default; }\nclass C extends AB { public constructor() -> C = default; }\nclass A { public constructor() -> A = default; }\nclass BC { public constructor() -> BC = default; }\nfunction cc() -> void { AB p = new C(); A q = new BC(); BC r = new A(); }",
+            "class AB { public constructor() -> AB = default; }\nclass C extends AB { public constructor() -> C = default; }\nclass A { public constructor() -> A = default; }\nclass BC { public constructor() -> BC = default; }\nfunction cc() -> void { AB p = new C(); A q = new A(); BC r = new BC(); }"),
+           ("subclass-relation-is-not-symmetric",
+            "class Up { public constructor() -> Up = default; }\nclass Down extends Up { public constructor() -> Down = default; }\nfunction cc() -> void { Up u = new Down(); Down d = new Up(); }",
+            "class Up { public constructor() -> Up = default; }\nclass Down extends Up { public constructor() -> Down = default; }\nfunction cc() -> void { Up u = new Down(); Down d = new Down(); }"),
            ("final-field-assigned-in-method", "class RH { public final int ff = 1; public constructor() -> RH = default; public function set() -> void { this.ff = 2; } }",
             "class RH { public int ff = 1; public constructor() -> RH = default; public function set() -> void { this.ff = 2; } }"),
            ("final-field-assigned-bare-in-method", "class RH { public final int ff = 1; public constructor() -> RH = default; public function set() -> void { ff = 2; } }",
